@@ -51,6 +51,21 @@ build_clisim() {
     cat > "$d/overlay.json" <<EOF
 {"Replace": {"$REPO/internal/verif_clisim_test.go": "$V/sim/clisim/verif_clisim_test.go.txt", "$REPO/internal/verif_console_test.go": "$V/sim/clisim/$console"}}
 EOF
+    if [ -n "${CLISIM_CLOCKED:-}" ]; then
+      # the simulator's clock (and map order) over packages stack and internal of the driver binary:
+      # selected per process with VERIF_MAPORDER, Go's own behaviour without it
+      local cs="$out.clocksrc"
+      rm -rf "$cs"; mkdir -p "$cs"
+      (cd "$V/sim" && go build -modfile="$B/harness.mod" -o "$cs/maprewrite" ./cmd/maprewrite) || infra "build of maprewrite failed"
+      "$cs/maprewrite" -repo "$REPO" -pkg stack -out "$cs/stack" >/dev/null || infra "maprewrite (stack) failed"
+      (cd "$REPO" && "$cs/maprewrite" -repo "$REPO" -pkg internal -out "$cs/internal") >/dev/null || infra "maprewrite (internal) failed"
+      python3 - "$d/overlay.json" "$cs/stack/overlay.json" "$cs/internal/overlay.json" <<'PY2' || infra "overlay merge failed"
+import json,sys
+a=json.load(open(sys.argv[1]))
+for f in sys.argv[2:]: a["Replace"].update(json.load(open(f))["Replace"])
+json.dump(a,open(sys.argv[1],"w"),indent=1)
+PY2
+    fi
     if (cd "$REPO" && go test -c -vet=off -modfile="$d/go.mod" -overlay "$d/overlay.json" -o "$out" ./internal) 2> "$d/err"; then
       [ "$console" = verif_console_stub.go.txt ] && echo "note: console renderers of the tree under test have other signatures; console stage unavailable" >&2
       rm -rf "$d"; return 0
